@@ -184,8 +184,8 @@ def main(tier, seed):
     import parsertwin
     n4, s4 = parsertwin.check(rep, dev, [s for _n, s, _e in items] + srcs, "repository scripts and their mutations", tag="c03twinA")
     vocab2 = [t for t in vocab if t != "\"a${1}b\""] + ["\"a${1}\"", "\"${x}b\"", "@", "{", "}"]
-    lines = ["\n".join(p) for p in itertools.product(vocab2, repeat=2)]
-    lines += ["\n".join(rng.choice(vocab2) for _ in range(rng.choice([3, 3, 4, 5, 6, 8, 12]))) for _ in range(30000 if tier == "quick" else 300000)]
+    n8, s8 = parsertwin.check_generated(rep, dev, 2 if tier == "quick" else 3, "token sequences enumerated by TLC", tag="c03pgen")
+    lines = ["\n".join(rng.choice(vocab2) for _ in range(rng.choice([3, 3, 4, 5, 6, 8, 12]))) for _ in range(20000 if tier == "quick" else 300000)]
     n5, s5 = parsertwin.check(rep, dev, lines, "token sequences, one token per line", tag="c03twinB")
     # every statement form x context x (cut / missing / doubled token), followed by more code
     skel = skeleton_sources()
@@ -197,9 +197,9 @@ def main(tier, seed):
            ["fn f(c) { " + "if c { " * d + "print(c);" + " }" * d + " }\nf(true);" for d in (64, 255, 256, 257)] + \
            ["var s = " + ("\"a${" * d) + "1" + ("}\"" * d) + ";" for d in (7, 8, 9, 12)] + ["[" * d + "]" * d + ";" for d in (10, 64)]
     n3, s3 = parser_part(rep, dev, tier, rng, deep, "nesting")
-    rep.coverage["states"] = states + s1 + s2 + s3 + s4 + s5 + s6 + s7
-    rep.coverage["transitions"] = states + s1 + s2 + s3 + s4 + s5 + s6 + s7
-    rep.coverage["traces_validated_against_impl"] = nscan + n1 + n2 + n3 + n4 + n5 + n6 + n7
+    rep.coverage["states"] = states + s1 + s2 + s3 + s4 + s5 + s6 + s7 + s8
+    rep.coverage["transitions"] = states + s1 + s2 + s3 + s4 + s5 + s6 + s7 + s8
+    rep.coverage["traces_validated_against_impl"] = nscan + n1 + n2 + n3 + n4 + n5 + n6 + n7 + n8
     rep.coverage["scanner_sources"] = nscan
     rep.coverage["parser_inputs"] = n1 + n2 + n3
     rep.coverage["exhaustive"] = True
